@@ -685,6 +685,18 @@ def rule_stop(ctx):
                 nm0 = (c.dfn(strip(e0["f"]).get("def")) or {}).get("name") if e0.get("k") == "Call" and strip(e0["f"]).get("k") == "Path" else None
                 if nm0 not in ("Err", "from_residual"):
                     res.instance("%s : result before the linkage" % key)
+                    from .layout import with_parents as _wp
+                    guards = []
+                    for y2, anc2 in _wp(fn["body"]):
+                        if y2 is y:
+                            guards = [a for a in anc2 if a.get("k") in ("If", "Match")]
+                    on_threshold = any((z.get("k") in ("Path", "TupleStruct") and (c.dfn(z.get("def")) or {}).get("name") == "Distance") or (z.get("k") == "Field" and z["name"] == "stopping") for g_ in guards for z in walk(g_.get("c") or g_.get("scrut") or g_))
+                    on_method = any(z.get("k") == "Field" and z["name"] == "method" for g_ in guards for z in walk(g_))
+                    if not on_threshold or on_method:
+                        # trivial inputs (no or one observation, at least as many clusters requested as there are points) have
+                        # answers that need no linkage; a shortcut on the threshold that also looks at the linkage method may be right
+                        res.undecided("%s : shortcut-before-linkage" % key, "`%s` returns labels before the linkage is computed; that these are the labels the replay would give is not decided" % r.e(y)[:60], fn_loc(fn, y.get("ln")))
+                        continue
                     res.violate("%s : labels-without-linkage" % key, "`%s` returns labels before the linkage is computed: the merge heights of Ward linkage exceed the largest pairwise dissimilarity, so no bound on the inputs decides the clustering" % r.e(y)[:60], fn_loc(fn, y.get("ln")))
     lp = _steps_loop(fn, inits)
     if lp is None:
